@@ -356,6 +356,9 @@ func (g *gen) history(emit func(hxlib.Case), backend string, shadow bool) {
 			g.r.Count("op:query:" + actorClass(actor))
 		case x < 52:
 			write(actor)
+		case x < 54:
+			lines = append(lines, "reput "+actor+" "+k)
+			g.r.Count("op:get-then-put-back:" + actorClass(actor))
 		case x < 58:
 			lines = append(lines, "del "+actor+" "+k)
 			g.r.Count("op:delete:" + actorClass(actor))
@@ -532,7 +535,12 @@ func (g *gen) runtimeCase(emit func(hxlib.Case)) {
 	emit(hxlib.Case{Lines: lines, NonTrivial: true, Kind: "runtime-registry"})
 }
 
-func generate(r *hxlib.Run, emit func(hxlib.Case)) {
+func generate(r *hxlib.Run, emit0 func(hxlib.Case)) {
+	emit := func(c hxlib.Case) {
+		if !dbx.Hung() {
+			emit0(c)
+		}
+	}
 	g := &gen{r: r}
 	// regression: every path once with a secret and a crown-jewel record
 	base := []string{"if P 1 1 n 0 0 0 0", "if A 0 0 n 0 0 0 0", "if B 0 1 r 0 0 0 0", "if C 1 0 n 0 0 0 0",
